@@ -117,8 +117,22 @@ func ruleR15c(c *Check) {
 	fname := c.P.FuncName(ldo)
 	lo := c.P.Func("output", "Registry", "LoadOutputs")
 	var loadCalls []ssa.CallInstruction
+	staticTo := func(fn *ssa.Function) func(ssa.CallInstruction) bool {
+		return func(s ssa.CallInstruction) bool {
+			for _, cal := range c.G.CalleesOf(s) {
+				if cal == fn {
+					return true
+				}
+			}
+			return false
+		}
+	}
 	if lo != nil {
-		loadCalls = callsToFn(c, ldo, lo)
+		var leaks []string
+		loadCalls, leaks = liftedSites(c, ldo, staticTo(lo), 0)
+		for _, l := range leaks {
+			c.Bad("R15c", "all-dependencies-loaded/"+fname, "a helper of the dependency loader loses the restore error: "+l, "-")
+		}
 	}
 	if len(loadCalls) == 0 {
 		c.Unknown("R15c", "all-dependencies-loaded/"+fname, "no output restore call in the dependency loader", "-")
@@ -190,7 +204,7 @@ func ruleR15c(c *Check) {
 		})
 		// (1) every iteration looks the dependency's result up (unless it has no outputs at all)
 		tc := c.P.Func("caching", "TargetResultCache", "Load")
-		lookups := callsToFn(c, ldo, tc)
+		lookups, _ := liftedSites(c, ldo, staticTo(tc), 0)
 		isLookup := func(in ssa.Instruction) bool {
 			for _, l := range lookups {
 				if in == ssa.Instruction(l) {
@@ -208,10 +222,10 @@ func ruleR15c(c *Check) {
 		// infeasible on paths that bypass the load.
 		errCalls := map[ssa.CallInstruction]int{}
 		for _, l := range lookups {
-			errCalls[l] = 1
+			errCalls[l] = engine.ErrResultIndex(l.Common().Signature())
 		}
 		for _, l := range loadCalls {
-			errCalls[l] = 0
+			errCalls[l] = engine.ErrResultIndex(l.Common().Signature())
 		}
 		mergedNil := engine.CutEdgesWhere(func(a engine.Atom) bool {
 			return a.Op == "nil" && engine.OriginsAllFromCall(a.V, errCalls, false)
